@@ -239,7 +239,7 @@ impl PluginSpec {
 pub enum Traversal {
     Distance,
     Speed,
-    /// energy model (Toyota Camry random forest) over the speed table; `cache`: a float cache with whole-number keys
+    /// energy model (Toyota Camry random forest) over the speed table; `cache`: a float cache with keys rounded to tens
     Energy { cache: bool },
 }
 
@@ -266,7 +266,7 @@ pub fn config_toml(dir: &Path, parallelism: usize, traversal: Traversal, plugins
             )
         }
         Traversal::Energy { cache } => {
-            let cache_line = if cache { "float_cache_policy = { cache_size = 1000, key_precisions = [0, 0] }\n" } else { "" };
+            let cache_line = if cache { "float_cache_policy = { cache_size = 1000, key_precisions = [-1, 0] }\n" } else { "" };
             format!(
                 "[traversal]\ntype = \"energy_model\"\ngrade_table_grade_unit = \"decimal\"\ntime_unit = \"minutes\"\ndistance_unit = \"miles\"\n[traversal.time_model]\ntype = \"speed_table\"\nspeed_table_input_file = \"{d}/speeds.csv\"\nspeed_unit = \"kilometers_per_hour\"\ndistance_unit = \"miles\"\ntime_unit = \"minutes\"\n[[traversal.vehicles]]\nname = \"camry\"\ntype = \"ice\"\nmodel_input_file = \"{model}\"\nmodel_type = \"smartcore\"\nspeed_unit = \"miles_per_hour\"\ngrade_unit = \"decimal\"\nenergy_rate_unit = \"gallons_gasoline_per_mile\"\nideal_energy_rate = 0.02857143\nreal_world_energy_adjustment = 1.166\n{cache_line}[cost]\ncost_aggregation = \"sum\"\n[cost.weights]\ndistance = 1\ntime = 1\nenergy_liquid = 1\n[cost.vehicle_rates.time]\ntype = \"raw\"\n[cost.vehicle_rates.distance]\ntype = \"raw\"\n[cost.vehicle_rates.energy_liquid]\ntype = \"raw\"\n",
                 model = "/repo/rust/routee-compass-powertrain/src/routee/test/Toyota_Camry.bin"
@@ -398,11 +398,31 @@ fn canon_response(r: &Value) -> Value {
         return json!({"request": req, "error": kind});
     }
     match obj.get("route") {
-        Some(Value::Object(route)) => json!({"request": req, "route": {
-            "path": route.get("path").cloned().unwrap_or(Value::Null),
-            "cost": sort_keys(route.get("cost").unwrap_or(&Value::Null)),
-            "state": sort_keys(route.get("traversal_summary").unwrap_or(&Value::Null)),
-        }}),
+        Some(Value::Object(route)) => {
+            // `total_cost` is `HashMap::values().fold(+)` in `CostModel::serialize_cost`: with three or more cost
+            // components its last bit depends on the map's (per-instance random) iteration order, for one and the
+            // same query.  It is a derived value: compared against the sum of the components with a tolerance
+            // here, and left out of the bit-exact comparison.
+            let mut cost = sort_keys(route.get("cost").unwrap_or(&Value::Null));
+            let mut check = Value::Null;
+            if let Value::Object(m) = &mut cost {
+                if let Some(total) = m.shift_remove("total_cost").and_then(|t| t.as_f64()) {
+                    let sum: f64 = m.values().filter_map(|v| v.as_f64()).sum();
+                    if !((total - sum).abs() <= 1e-9 * total.abs().max(1.0)) {
+                        check = json!(format!("total_cost {} != sum of components {}", total, sum));
+                    }
+                }
+            }
+            let mut r = json!({"request": req, "route": {
+                "path": route.get("path").cloned().unwrap_or(Value::Null),
+                "cost": cost,
+                "state": sort_keys(route.get("traversal_summary").unwrap_or(&Value::Null)),
+            }});
+            if !check.is_null() {
+                r["total_cost_check"] = check;
+            }
+            r
+        }
         Some(other) => json!({"request": req, "route": sort_keys(other)}),
         None => json!({"request": req, "route": "absent"}),
     }
@@ -1438,6 +1458,11 @@ fn run_case(ctx: &mut Ctx, fx: &Fixture, persist_cfg: bool, gens: &[GenQ], plans
                 ctx.fail(first_idx, "batch/malformed-response", format!("response without request: {}", clip(&r.to_string())));
             }
         }
+        for r in &resp {
+            if let Some(c) = r.get("total_cost_check") {
+                ctx.fail(first_idx, "response/total-cost", format!("{} in the response to {}", c, clip(&g.q.to_string())));
+            }
+        }
         // every query is answered
         if resp.is_empty() {
             ctx.fail(first_idx, "pipeline/query-unanswered", format!("query {} got no response at all under {}", clip(&g.q.to_string()), fx.label));
@@ -1625,8 +1650,8 @@ fn make_fixture(root: &Path, id: usize, rng: &mut Rng, label: &str, plugins: Vec
     let dir = root.join(format!("fx{}", id));
     let n = 12 + rng.below(26);
     let net = match traversal {
-        // speeds whose mph values share whole-number cache keys (29.5 .. 30.4 -> 30, 49.8 / 50.3 -> 50)
-        Traversal::Energy { .. } => gen_net_speeds(rng, n, &[47.5, 48.0, 48.6, 49.0, 80.2, 80.9]),
+        // speeds (km/h, the unit the cache key is taken in) that share cache keys rounded to tens: 20, 20, 50, 50, 80, 80
+        Traversal::Energy { .. } => gen_net_speeds(rng, n, &[15.2, 24.4, 45.5, 54.4, 75.1, 84.8]),
         _ => gen_net(rng, n),
     };
     write_net(&dir, &net);
@@ -1721,10 +1746,10 @@ fn plan_jobs(rng: &mut Rng, _fx: &Fixture, persist_cfg: bool, n: usize, profile:
     plans
 }
 
-/// the same batch, offered in two orders to two *fresh* processes (cold cache each): with whole-number cache keys
+/// the same batch, offered in two orders to two *fresh* processes (cold cache each): with cache keys rounded to tens
 /// the first edge predicted under a key fixes the rate of every other speed with that key, so the responses
 /// depend on which query ran first
-fn cache_demo(ctx: &mut Ctx, fx: &Fixture, rng: &mut Rng) {
+fn cache_demo(ctx: &mut Ctx, fx: &Fixture, control: Option<&Fixture>, rng: &mut Rng) {
     for attempt in 0..6 {
         let gens: Vec<GenQ> = (0..6).map(|_| valid_query(fx, rng)).collect();
         let batch: Vec<Value> = gens.iter().map(|g| g.q.clone()).collect();
@@ -1737,10 +1762,21 @@ fn cache_demo(ctx: &mut Ctx, fx: &Fixture, rng: &mut Rng) {
         let fmt = fmt_table(fx, &batch);
         ctx.emit(idx, case_line(fx, &a, &batch, &ident, Some(1), true, &fmt), out_line(&a.jobs[0]));
         ctx.count("corpus_rounded_cache");
+        // control: the same experiment without a cache policy must not depend on the order
+        if let Some(cfx) = control {
+            let cg: Vec<GenQ> = (0..6).map(|_| valid_query(cfx, rng)).collect();
+            let cb: Vec<Value> = cg.iter().map(|g| g.q.clone()).collect();
+            let ca = forked(cfx, &cb, &[Job { order: ident.clone(), run_cfg: cfg.clone(), pool: 1 }], false, 20);
+            let cr = forked(cfx, &cb, &[Job { order: ident.iter().rev().copied().collect(), run_cfg: cfg.clone(), pool: 1 }], false, 20);
+            match (&ca.jobs[0], &cr.jobs[0]) {
+                (RunOut::Ok(x), RunOut::Ok(y)) if sorted(x.clone()) == sorted(y.clone()) => ctx.count("cache_control_equal"),
+                _ => ctx.fail(idx, "batch/order-dependent", format!("energy model WITHOUT cache policy: the batch in reverse order (fresh process) returns different responses: {}", clip(&Value::Array(cb.clone()).to_string()))),
+            }
+        }
         if let (RunOut::Ok(ra), RunOut::Ok(rb)) = (&a.jobs[0], &b.jobs[0]) {
             if sorted(ra.clone()) != sorted(rb.clone()) {
                 let diff = ra.iter().find(|r| !rb.contains(r)).cloned().unwrap_or_default();
-                ctx.fail(idx, "cache/order-dependent", format!("energy model with float_cache_policy key_precisions [0, 0]: the batch in reverse order (fresh process, parallelism 1) returns different responses; e.g. only in the forward run: {}", clip(&decode(&diff).to_string())));
+                ctx.fail(idx, "cache/order-dependent", format!("energy model with float_cache_policy key_precisions [-1, 0]: the batch in reverse order (fresh process, parallelism 1) returns different responses; e.g. only in the forward run: {}", clip(&decode(&diff).to_string())));
                 ctx.nontrivial(&format!("cache|{}", attempt));
                 return;
             }
@@ -1881,7 +1917,8 @@ pub fn run(ctx: &mut Ctx, profile: Profile) -> &'static str {
     if profile == Profile::C06 {
         id += 1;
         if let Some((fx, _)) = make_fixture(&root, id, &mut frng, "energy_rounded_cache", vec![], Traversal::Energy { cache: true }, false, None, 1, true) {
-            cache_demo(ctx, &fx, &mut frng);
+            let control = find("grid_energy").map(|i| &fixtures[i].0);
+            cache_demo(ctx, &fx, control, &mut frng);
         }
     }
 
